@@ -1727,6 +1727,10 @@ def sse_MOVSD(i, fmap):
         src = fmap(op2[0 : op1.size])
     elif op2._is_mem:
         src = fmap(op2).zeroextend(op1.size)
+    else:
+        # xmm1, xmm2: the low quadword moves, bits 127:64 of xmm1 are unchanged
+        op1 = op1[0:64]
+        src = fmap(op2[0:64])
     fmap[op1] = src
 
 
